@@ -4,6 +4,7 @@ import (
 	"fmt"
 	"math/rand"
 	"reflect"
+	"regexp"
 	"sort"
 	"strings"
 
@@ -270,6 +271,7 @@ func init() {
 		Rule:        "evaluations = Filter calls on the real registry (and on previously filtered, configured registries), each judged against a reference model over the inventory (name, source, kind): selected set, error cases (unknown name after trimming, pattern + name lists), identity for empty options, per-kind lookups returning the very same lint objects with equal metadata, Lints() sizes, Sources(), inherited configuration, source registry unchanged (names, sources, object identities, configuration). distinct_nontrivial = distinct selected name sets produced by valid option sets.",
 		Assumptions: []string{"option sets are seeded samples: multisets of known/unknown names with stray blanks, nil vs empty slices, all source subsets incl. Unknown and a non-existent source, a pool of regular expressions"},
 		Setup:       setupCommon,
+		Solo:        c08Solo,
 		Once: func(c *mon.Ctx) {
 			g := lint.GlobalRegistry()
 			// directed: every single name with surrounding blanks, include and exclude; every single source
@@ -347,6 +349,10 @@ func init() {
 				if r.Sets["outcomes"][k] == 0 {
 					gates = append(gates, "outcome class never exercised: "+k)
 				}
+			}
+			ev.Coverage["addition_filter_judgements"] = r.Counters["addition_filter_judgements"]
+			if r.Counters["addition_filter_judgements"] < 300 {
+				gates = append(gates, "the additions scenario (own process) did not complete")
 			}
 			if r.Counters["chained"] == 0 {
 				gates = append(gates, "no chained filter exercised")
@@ -436,4 +442,90 @@ func randFilterOver(rng interface{ Intn(int) int }, inv []mon.LintInfo, hostile 
 		o.IncludeNames = append(o.IncludeNames, Inv[rng.Intn(len(Inv))].Name)
 	}
 	return o
+}
+
+// c08Solo (own process): the reference model after the registry has GROWN. The registry is used first (names listed,
+// selections filtered, objects linted), then lints of every kind are registered through the public API one at a time
+// (OCSP first and last); after each registration the inventory the model works on is the start-up inventory plus
+// what the harness itself registered - never re-read from the registry's own listing - and Filter is judged on
+// selections that name the new lint, its source, patterns, exclusions and seeded random options.
+func c08Solo(c *mon.Ctx) {
+	g := lint.GlobalRegistry()
+	inv := append([]mon.LintInfo{}, Inv...)
+	_ = g.Names()
+	for _, k := range []corpus.Kind{corpus.Cert, corpus.CRL, corpus.OCSP} {
+		if idx := W.ByKind[k]; len(idx) > 0 {
+			_, _, _ = W.Objs[idx[0]].Lint(g)
+		}
+	}
+	rng := c.Rng(-8, 0)
+	for k := 0; k < 20; k++ {
+		c08Judge(c, g, inv, "global before additions", randFilterOver(rng, inv, k%4 == 0))
+	}
+	md := func(n string, s lint.LintSource) lint.LintMetadata {
+		return lint.LintMetadata{Name: n, Description: "verif addition", Citation: "verif", Source: s}
+	}
+	type step struct {
+		name string
+		kind corpus.Kind
+		src  lint.LintSource
+		reg  func(m lint.LintMetadata)
+	}
+	regO := func(m lint.LintMetadata) {
+		lint.RegisterOcspResponseLint(&lint.OcspResponseLint{LintMetadata: m, Lint: func() lint.OcspResponseLintInterface { return c01POCSP{c01P{st: lint.Pass}} }})
+	}
+	regR := func(m lint.LintMetadata) {
+		lint.RegisterRevocationListLint(&lint.RevocationListLint{LintMetadata: m, Lint: func() lint.RevocationListLintInterface { return c01PCRL{c01P{st: lint.Pass}} }})
+	}
+	regC := func(m lint.LintMetadata) {
+		lint.RegisterCertificateLint(&lint.CertificateLint{LintMetadata: m, Lint: func() lint.CertificateLintInterface { return c01PCert{c01P{st: lint.Pass}} }})
+	}
+	steps := []step{
+		{"e_verif_c08_ocsp_a", corpus.OCSP, lint.RFC8813, regO},
+		{"w_verif_c08_crl_a", corpus.CRL, lint.RFC6960, regR},
+		{"n_verif_c08_cert_a", corpus.Cert, lint.RFC8813, regC},
+		{"e_000_verif_c08_cert_first", corpus.Cert, lint.Community, regC},
+		{"w_zzz_verif_c08_crl_last", corpus.CRL, lint.CABFSMIMEBaselineRequirements, regR},
+		{"e_verif_c08_ocsp_b", corpus.OCSP, lint.AppleRootStorePolicy, regO},
+	}
+	for si, st := range steps {
+		m := md(st.name, st.src)
+		st.reg(m)
+		li := mon.LintInfo{Name: st.name, Kind: st.kind, Meta: m}
+		switch st.kind {
+		case corpus.Cert:
+			li.CertL = g.CertificateLints().ByName(st.name)
+		case corpus.CRL:
+			li.CrlL = g.RevocationListLints().ByName(st.name)
+		default:
+			li.OcspL = g.OcspResponseLints().ByName(st.name)
+		}
+		if li.CertL == nil && li.CrlL == nil && li.OcspL == nil {
+			c.V("addition-not-found-by-name|"+st.kind.String(), "a lint registered through the public API is not found by its kind's ByName: "+st.name, st.name, nil, nil)
+			continue
+		}
+		inv = append(inv, li)
+		sort.Slice(inv, func(i, j int) bool { return inv[i].Name < inv[j].Name })
+		label := fmt.Sprintf("global after %d additions (last: %s lint %s)", si+1, st.kind, st.name)
+		for _, o := range []lint.FilterOptions{
+			{IncludeNames: []string{st.name}},
+			{IncludeNames: []string{" " + st.name + "\t", Inv[0].Name}},
+			{ExcludeNames: []string{st.name}},
+			{ExcludeNames: []string{Inv[1].Name}},
+			{IncludeSources: lint.SourceList{st.src}},
+			{ExcludeSources: lint.SourceList{st.src}},
+			{ExcludeSources: lint.SourceList{lint.CABFBaselineRequirements}},
+			{NameFilter: regexp.MustCompile("verif_c08")},
+			{NameFilter: regexp.MustCompile("^" + st.name + "$")},
+			{NameFilter: regexpAll},
+			{IncludeSources: lint.SourceList{st.src}, ExcludeNames: []string{st.name}},
+		} {
+			c08Judge(c, g, inv, label, o)
+			c.R.Count("addition_filter_judgements", 1)
+		}
+		for k := 0; k < 60; k++ {
+			c08Judge(c, g, inv, label, randFilterOver(rng, inv, k%5 == 0))
+			c.R.Count("addition_filter_judgements", 1)
+		}
+	}
 }
